@@ -380,30 +380,30 @@ class PiecewiseConstantBirthDeath(Distribution):
                     torch.gather(times[..., 1:], -1, indices_y),
                     y,
                 )
-                log_p += (
-                    (
-                        torch.log(self.psi.gather(-1, indices_y) * (r + (1.0 - r) * p0))
-                        - self.log_q(
-                            A.gather(-1, indices_y),
-                            B.gather(-1, indices_y),
-                            y,
-                            torch.gather(times[..., 1:], -1, indices_y),
-                        )
-                    )
-                    * (~is_rho_tip)
+                # (where, not a product with the mask: the term of a rho-sampled tip
+                # is -inf when there is no psi-sampling in its epoch)
+                log_p += torch.where(
+                    is_rho_tip,
+                    torch.zeros_like(y),
+                    torch.log(self.psi.gather(-1, indices_y) * (r + (1.0 - r) * p0))
+                    - self.log_q(
+                        A.gather(-1, indices_y),
+                        B.gather(-1, indices_y),
+                        y,
+                        torch.gather(times[..., 1:], -1, indices_y),
+                    ),
                 ).sum(-1)
             else:
-                log_p += (
-                    (
-                        self.psi.log().gather(-1, indices_y)
-                        - self.log_q(
-                            A.gather(-1, indices_y),
-                            B.gather(-1, indices_y),
-                            y,
-                            torch.gather(times[..., 1:], -1, indices_y),
-                        )
-                    )
-                    * (~is_rho_tip)
+                log_p += torch.where(
+                    is_rho_tip,
+                    torch.zeros_like(y),
+                    self.psi.log().gather(-1, indices_y)
+                    - self.log_q(
+                        A.gather(-1, indices_y),
+                        B.gather(-1, indices_y),
+                        y,
+                        torch.gather(times[..., 1:], -1, indices_y),
+                    ),
                 ).sum(-1)
 
         # last term
